@@ -482,3 +482,82 @@ def r2_5(ctx):
                     n += 1
                     ctx.ob("%s:%s:castling-destination" % (site.name, field), bool(okd), b.where(loc), "castling stores %s as the %s king's square" % (chess.name(dest) if dest and 2 <= dest[0] <= 9 and 2 <= dest[1] <= 9 else dest, colour))
     ctx.floor("king-cache obligations", n, 6)
+
+
+def r6_5(ctx):
+    """Sentinel safety of the single-step probes: with the probed / moving piece's square on the
+    board ([2,9] x [2,9]) every index formed by knight offsets, pawn offsets and the king
+    neighbourhood lies in [0, 11].  (Ray walks are covered by the walk shape R6.3/R1.4 and the
+    sentinel ring argument, which is not computed.)"""
+    from wa.exprint import expr_interval
+    f = ctx.facts
+    targets = [ICC, "move_generation::knight_moves", "move_generation::king_moves", "move_generation::pawn_moves", "move_generation::pawn_moves_en_passant"]
+    n = nd = 0
+    for fn in targets:
+        b = f.body(fn)
+        ctx.note_fn(fn)
+        ex = Exprs(b)
+        pts = [i for i in range(1, b.arg_count + 1) if b.local_ty(i) == "board::Point"]
+        us = [i for i in range(1, b.arg_count + 1) if b.local_ty(i) == "usize"]
+        tl = table_loops(b, ex)
+        cols = {}
+        for h, (body_, tab, item) in tl.items():
+            cols[_strip_cd(("field", ("deref", item), "0"))] = (min(t[0] for t in tab), max(t[0] for t in tab))
+            cols[_strip_cd(("field", ("deref", item), "1"))] = (min(t[1] for t in tab), max(t[1] for t in tab))
+        ranges = {}
+        for h, body_ in b.loops().items():
+            for x in body_:
+                if b.term(x)["k"] == "switch":
+                    d = ex.switch_discr(x)
+                    if d[0] == "discr" and d[1][0] == "call" and d[1][1].endswith("Range<A>>::next"):
+                        for y in data_slice(ex, strip_refs(d[1][2][0])):
+                            if y[0] == "agg" and y[1].endswith("ops::Range") and all(z[0] == "const" for z in y[3]):
+                                ranges[("field", ("downcast", d[1], "Some"), "0")] = (y[3][0][1], y[3][1][1] - 1)
+
+        def leaf(e):
+            e0 = e
+            if e0[0] == "field" and e0[1][0] == "arg" and e0[1][1] in pts:
+                return (2, 9)
+            if e0[0] == "arg" and e0[1] in us:
+                return (2, 9)
+            if _strip_cd(e0) in cols and e0[0] != "cast":
+                return cols[_strip_cd(e0)]
+            if e0 in ranges:
+                return ranges[e0]
+            return None
+
+        short = fn.split("::")[-1]
+        k = 0
+        for bb in b.normal:
+            if bb not in b.reachable or b.term(bb)["k"] != "assert":
+                continue
+            t = b.term(bb)
+            loc = b.term_loc(bb)
+            if t["assert_kind"] == "bounds":
+                ln = t["ops"][0]
+                e = ex.operand(t["ops"][1], loc)
+                iv = expr_interval(e, leaf)
+                k += 1
+                if iv is None:
+                    nd += 1
+                    continue     # walking index (loop-carried): not decided here
+                n += 1
+                ok = iv[0] >= 0 and iv[1] <= ln["val"] - 1
+                ctx.ob("%s:index#%d" % (short, k), ok, b.where(loc), "index `%s` in [%s, %s] for an array of %s" % (show_expr(e, b)[:60], iv[0], iv[1], ln["val"]))
+            elif t["assert_kind"].startswith("overflow:"):
+                op = t["assert_kind"].split(":")[1]
+                a, c = ex.operand(t["ops"][0], loc), ex.operand(t["ops"][1], loc)
+                ia, ic = expr_interval(a, leaf), expr_interval(c, leaf)
+                ty = t["ops"][0].get("ty") or t["ops"][0].get("place", {}).get("ty")
+                k += 1
+                if ia is None or ic is None or ty not in ("usize", "i8"):
+                    nd += 1
+                    continue
+                n += 1
+                from wa.absint import Intervals as _I
+                from wa.mir import INT_RANGES as _R
+                r = _I._arith(op, ia, ic)
+                ok = r is not None and r[0] >= _R[ty][0] and r[1] <= _R[ty][1]
+                ctx.ob("%s:arith#%d" % (short, k), ok, b.where(loc), "%s of [%s,%s] and [%s,%s] in %s" % (op, ia[0], ia[1], ic[0], ic[1], ty))
+    ctx.ob("walking-indices-not-decided", True, "", "%d index/arithmetic checks depend on loop-carried walk positions and are left to the sentinel argument" % nd, nontrivial=False)
+    ctx.floor("single-step index obligations", n, 20)
